@@ -1,0 +1,35 @@
+//! Cooperative fault points for the /verif simulator (cargo feature `verif_hooks`, off by default).
+//!
+//! Each knob makes the *prover* deviate from the protocol in one specific way so that exactly one
+//! verifier check is exercised. Knobs are thread-local and unarmed by default: with every knob at
+//! `None` the shipped behaviour is unchanged.
+
+use core::cell::RefCell;
+
+#[derive(Clone, Debug, Default)]
+pub struct Knobs {
+    /// H1: start the permutation running product Z at this value instead of 1.
+    pub z_init: Option<u64>,
+    /// H2: add `delta` to coefficient `k` of the quotient polynomial of challenge `j` before it is committed.
+    pub quotient_delta: Option<(usize, usize, u64)>,
+    /// H4: use this proof-of-work witness without searching and without the self-check.
+    pub pow_witness: Option<u64>,
+    /// H5: add `delta` to coefficient `k` (first limb) of the FRI final polynomial before it is absorbed.
+    pub final_poly_delta: Option<(usize, u64)>,
+}
+
+thread_local! {
+    static KNOBS: RefCell<Knobs> = RefCell::new(Knobs::default());
+}
+
+pub fn set(k: Knobs) {
+    KNOBS.with(|c| *c.borrow_mut() = k);
+}
+
+pub fn clear() {
+    set(Knobs::default());
+}
+
+pub fn get() -> Knobs {
+    KNOBS.with(|c| c.borrow().clone())
+}
